@@ -180,6 +180,10 @@ func describe(cs []schema.Change) string {
 type ICase struct {
 	T    string `json:"t"`
 	Prec int    `json:"prec"` // -1 = not set
+	// Raw: instead of a hand-built time type, a raw SQL type (of Dialect) parsed with the dialect's ParseType. The list of
+	// raw types is written by hand, independently of the registered type specs the grid is derived from.
+	Raw     string `json:"raw,omitempty"`
+	Dialect string `json:"dialect,omitempty"`
 }
 
 var timeAlias = map[string]string{"timestamp without time zone": "timestamp", "timestamp with time zone": "timestamptz",
@@ -197,7 +201,63 @@ func timeKey(t schema.Type) string {
 	return fmt.Sprintf("%s(%d)", timeAlias[strings.ToLower(tt.T)], p)
 }
 
+func checkRaw(c ICase) error {
+	build := func() (*schema.Schema, error) {
+		ty, err := gm.ParseType(c.Dialect, c.Raw)
+		if err != nil {
+			return nil, err
+		}
+		s := schema.New("app")
+		schema.NewRealm(s)
+		s.AddTables(schema.NewTable("t").AddColumns(schema.NewColumn("c").SetType(ty)))
+		return s, nil
+	}
+	s0, err := build()
+	if err != nil {
+		return nil // not a type of this dialect: nothing to round-trip
+	}
+	f0, err := gm.FormatType(c.Dialect, s0.Tables[0].Columns[0].Type.Type)
+	if err != nil {
+		return nil
+	}
+	h1, err := gm.MarshalHCL(c.Dialect, s0)
+	if err != nil {
+		return fmt.Errorf("%s: MarshalHCL of a column of type %q failed: %v", c.Dialect, c.Raw, err)
+	}
+	r1, err := gm.EvalHCL(c.Dialect, h1)
+	if err != nil {
+		return fmt.Errorf("%s: the HCL written for type %q does not evaluate: %v\n%s", c.Dialect, c.Raw, err, h1)
+	}
+	col, ok := r1.Schemas[0].Tables[0].Column("c")
+	if !ok {
+		return fmt.Errorf("%s: column lost\n%s", c.Dialect, h1)
+	}
+	f1, err := gm.FormatType(c.Dialect, col.Type.Type)
+	if err != nil || f1 != f0 {
+		return fmt.Errorf("%s: type %q (formatted %q) comes back from the HCL round trip as %q (%v)\nHCL:\n%s", c.Dialect, c.Raw, f0, f1, err, h1)
+	}
+	for _, dir := range []string{"forward", "backward"} {
+		a, _ := build()
+		r2, _ := gm.EvalHCL(c.Dialect, h1)
+		b := r2.Schemas[0]
+		if dir == "backward" {
+			a, b = b, a
+		}
+		ch, err := gm.Differ(c.Dialect).SchemaDiff(a, b, schema.DiffNormalized())
+		if err != nil {
+			return fmt.Errorf("%s: diff failed: %v", c.Dialect, err)
+		}
+		if len(ch) > 0 {
+			return fmt.Errorf("%s: %s diff between a column of type %q and its HCL round trip is not empty: %s\nHCL:\n%s", c.Dialect, dir, c.Raw, describe(ch), h1)
+		}
+	}
+	return nil
+}
+
 func checkInspected(c ICase) error {
+	if c.Raw != "" {
+		return checkRaw(c)
+	}
 	build := func() *schema.Schema {
 		s := schema.New("app")
 		schema.NewRealm(s)
